@@ -2,8 +2,9 @@
      file <hex of a whole .webp file>
         -> "I <r> S <r>"  r = "<wf> <lossless> <w> <h> <alpha> <digest>"  | "ERR<n>"
            digest: VP8L: fnv1a64 of the RGBA bytes of the specification decoder's picture;
-                   VP8+ALPH: fnv1a64 of the alpha plane decoded by the ALPH model (VP8L spec
-                   decoder inside); VP8 without alpha: "-"
+                   VP8: fnv1a64 of Y then U then V of the RFC 6386 specification decoder,
+                   followed by "/" and fnv1a64 of the alpha plane decoded by the ALPH model
+                   (VP8L spec decoder inside) when there is an ALPH chunk
      hdr <w> <h> <part0 len> <len_1,len_2,...>
         -> "I <hex of tag + picture header + size table>" | "ERR<n>"   (emit_frame on zero-filled partitions) *)
 open Zutil
@@ -25,8 +26,12 @@ let () = iter_lines (fun line ->
           match rp.ConformFile.r_rgba, rp.ConformFile.r_aplane with
           | Some px, _ -> fnv (Stdlib.List.concat_map (fun p ->
               [int_of_z p.Vp8lPixel.pr; int_of_z p.Vp8lPixel.pg; int_of_z p.Vp8lPixel.pb; int_of_z p.Vp8lPixel.pa]) px)
-          | None, Some pl -> fnv (Stdlib.List.map int_of_z pl)
-          | None, None -> if rp.ConformFile.r_lossless then "BADDIMS" else "-" in
+          | None, ap ->
+            if rp.ConformFile.r_lossless then "BADDIMS" else
+            let yuv = match rp.ConformFile.r_yuv with
+              | Some ((y, u), v) -> fnv (Stdlib.List.map int_of_z (y @ u @ v))
+              | None -> "NOYUV" in
+            (match ap with Some pl -> yuv ^ "/" ^ fnv (Stdlib.List.map int_of_z pl) | None -> yuv) in
         Printf.sprintf "%s %s %s %s %s %s" (b2s rp.ConformFile.r_wf) (b2s rp.ConformFile.r_lossless)
           (string_of_z rp.ConformFile.r_w) (string_of_z rp.ConformFile.r_h) (b2s rp.ConformFile.r_alpha) digest
       | Res.Err e -> Printf.sprintf "ERR%d" (int_of_nat e)
